@@ -9,6 +9,7 @@ THEOREMS = [
     "XcmModel.C06.C06_establish_failure", "XcmModel.C06.C06_btcp_sticky", "XcmModel.C06.C06_no_success_after_terminal",
     "XcmModel.C06.C06_framing_passes_up", "XcmModel.C06.C06_framing_send_errno",
     "XcmModel.C07.C07_eproto_sticky", "XcmModel.C01.C01_never_partial",
+    "XcmModel.C06btls.C06_btls_closed_behaviour", "XcmModel.C06btls.C06_btls_bad_same_errno", "XcmModel.C06btls.C06_btls_send_discovers", "XcmModel.C06btls.C06_btls_receive_discovers", "XcmModel.C06btls.C06_btls_finish_discovers", "XcmModel.C06btls.C06_btls_sticky", "XcmModel.C06btls.C06_btls_classification",
 ]
 ERRS = ["ECONNRESET", "ETIMEDOUT", "EHOSTUNREACH", "ENETUNREACH", "ECONNREFUSED", "EPIPE"]
 FOLLOW = ["S 0102 - A", "R 10 - D0a0b", "F -", "R 10 - Z", "S 01 - EEAGAIN", "R 5 - EEAGAIN", "F o", "U 3 0"]
@@ -111,10 +112,17 @@ def run(ctx):
     ctx.assumptions += ["btls (process_ssl_event classification, TLS handshake failures) and the connect-phase errno "
                         "selection inside tconnect.c are not part of this check; ux is not part of this check",
                         "peer death at every byte offset is represented at the framing layer by EOF/errno after k arrived bytes"]
+    # the TLS connection machine (xcm_tp_btls.c) against the Lean Btls model, with its monitors
+    from gen import btls as _btls
+    _btls.run_part(ctx, 40 if ctx.tier == "quick" else 2000, exhaustive=True)
+    ctx.rule += (" unit_btls: the real xcm_tp_btls.c with scripted OpenSSL answers vs the Lean Btls model: every OpenSSL event x first observer x state x verdict, conn_update for every reachable (state, ssl_condition, ssl_wants) x condition x SSL_has_pending, seeded random histories; stickiness/discoverer/rc-range/gating monitors.")
 
 
 def replay(path):
     r = json.load(open(path))
+    if r.get("harness") == "unit_btls":
+        from gen import btls as _btls
+        return _btls.replay(r)
     if "btcp" in r.get("harness", ""):
         from gen.props import C02
         return C02.replay(path)
